@@ -58,6 +58,7 @@ type Ctx struct {
 	structIDs map[string]int
 	handUnfolded map[string]bool
 	abstractMul  bool
+	memAsConst   bool
 }
 
 func NewCtx(mode Mode, specs *SpecEnv) *Ctx {
@@ -95,6 +96,12 @@ func (c *Ctx) declareFun(name string, args []string, res string) {
 // define introduces a named term in script order and returns the name.
 func (c *Ctx) define(prefix, sort, term string) string {
 	n := c.fresh(prefix)
+	if c.memAsConst && strings.HasPrefix(sort, "(Array ") {
+		// memories are declared constants constrained by an equation, not macros: a macro is expanded inside
+		// quantifier patterns, where select-over-store rewrites to an ite that is not a legal pattern
+		c.script = append(c.script, fmt.Sprintf("(declare-const %s %s)", n, sort), fmt.Sprintf("(assert (= %s %s))", n, term))
+		return n
+	}
 	c.script = append(c.script, fmt.Sprintf("(define-fun %s () %s %s)", n, sort, term))
 	return n
 }
@@ -439,10 +446,13 @@ func (c *Ctx) binop(op string, t types.Type, x, y string, ty types.Type) string 
 	cy, yconst := constOf(y)
 	cx, xconst := constOf(x)
 	switch op {
-	case "+":
-		return c.wrap1(t, fmt.Sprintf("(+ %s %s)", x, y))
-	case "-":
-		return c.wrap1(t, fmt.Sprintf("(- %s %s)", x, y))
+	case "+", "-":
+		// lengths, capacities and offsets of slices are in [0, 2^40) and small literals are small: their sum or
+		// difference cannot leave a 64-bit type, so no wrap-around term (an ite) is needed
+		if w, _, _ := intInfo(t); w == 64 && smallTerm(x) && smallTerm(y) {
+			return fmt.Sprintf("(%s %s %s)", op, x, y)
+		}
+		return c.wrap1(t, fmt.Sprintf("(%s %s %s)", op, x, y))
 	case "*":
 		return c.wrapm(t, fmt.Sprintf("(* %s %s)", x, y))
 	case "/":
